@@ -45,6 +45,19 @@ def _tsan(st, prop, tier, seed, chk):
     shutil.rmtree(logdir, ignore_errors=True)
     os.makedirs(logdir)
     env = {"TSAN_OPTIONS": "halt_on_error=0 exitcode=0 report_signal_unsafe=0 log_path=%s/tsan" % logdir}
+    # engine self-test: a deliberate unsynchronised counter must be reported
+    e2 = dict(chk.ENV)
+    e2["TSAN_OPTIONS"] = "halt_on_error=0 exitcode=0 log_path=%s/selftest" % logdir
+    try:
+        subprocess.run([binary, "selftest-race"], env=e2, capture_output=True, text=True, timeout=120)
+    except Exception:
+        pass
+    fired = any("data race" in open(f, errors="replace").read() for f in glob.glob(os.path.join(logdir, "selftest*")))
+    for f in glob.glob(os.path.join(logdir, "selftest*")):
+        os.remove(f)
+    if not fired:
+        chk.log("note: TSan self-test did not fire; stage skipped")
+        return {"rc": 0, "stderr": "", "stdout": "", "result": None, "wall_s": 0, "cmd": "", "engine_control": ("selftest-race", False)}
     r = chk.run_mon(binary, prop, tier, seed, st["name"], st.get("timeout", 3000), st.get("args", []), env)
     blocks = []
     for f in glob.glob(os.path.join(logdir, "tsan*")):
@@ -66,6 +79,7 @@ def _tsan(st, prop, tier, seed, chk):
         viol.append({"sig": sig, "detail": "ThreadSanitizer report with a frame in the workspace crates (%s)" % fr,
                      "replay": {"report": b[:3000]}})
     r["extra_violations"] = viol
+    r["engine_control"] = ("selftest-race", True)
     if r["result"] is not None:
         r["result"].setdefault("notes", {})["tsan_reports_total"] = len(blocks)
         r["result"]["notes"]["tsan_reports_dependencies_only"] = dep_only
@@ -89,6 +103,12 @@ def _miri(st, prop, tier, seed, chk):
     if "unknown property noop" not in (b.stderr + b.stdout):
         chk.log("note: Miri unavailable: %s" % (b.stderr or "")[-400:])
         return None
+    st_ub = subprocess.run(["cargo", "+nightly", "miri", "run", "--bin", "mon", "--", "selftest-heap"], cwd=chk.HARNESS, env=env,
+                           capture_output=True, text=True, timeout=600)
+    miri_fired = "Undefined Behavior" in (st_ub.stderr or "")
+    if not miri_fired:
+        chk.log("note: Miri self-test did not fire; stage skipped")
+        return {"rc": 0, "stderr": "", "stdout": "", "result": None, "wall_s": 0, "cmd": "", "engine_control": ("selftest-heap", False)}
     outs = []
     for i, extra in enumerate(shards):
         out = os.path.join(chk.OUT, ".scratch", "%s-miri-%d-%d.json" % (prop, i, os.getpid()))
@@ -140,7 +160,8 @@ def _miri(st, prop, tier, seed, chk):
         else:
             errs += "\nshard produced no result: " + se[-300:]
     return {"rc": rc_all, "stderr": errs[-3000:], "stdout": "", "result": merged, "wall_s": time.time() - t0,
-            "cmd": "cargo +nightly miri run ... (%d shards)" % len(shards), "extra_violations": viol}
+            "cmd": "cargo +nightly miri run ... (%d shards)" % len(shards), "extra_violations": viol,
+            "engine_control": ("selftest-heap", True)}
 
 
 def _valgrind(st, prop, tier, seed, chk):
@@ -151,6 +172,17 @@ def _valgrind(st, prop, tier, seed, chk):
         return None
     log = os.path.join(chk.OUT, ".scratch", "valgrind-%s-%d.log" % (prop, os.getpid()))
     wrapper = ["valgrind", "--quiet", "--error-exitcode=0", "--log-file=%s" % log, "--num-callers=30"]
+    stl = log + ".selftest"
+    try:
+        subprocess.run(["valgrind", "--quiet", "--error-exitcode=0", "--log-file=%s" % stl, binary, "selftest-heap"], capture_output=True, timeout=300)
+        vg_fired = os.path.exists(stl) and "Invalid read" in open(stl, errors="replace").read()
+    except Exception:
+        vg_fired = False
+    if os.path.exists(stl):
+        os.remove(stl)
+    if not vg_fired:
+        chk.log("note: valgrind self-test did not fire; stage skipped")
+        return {"rc": 0, "stderr": "", "stdout": "", "result": None, "wall_s": 0, "cmd": "", "engine_control": ("selftest-heap", False)}
     r = chk.run_mon(binary, prop, tier, seed, st["name"], st.get("timeout", 3000), st.get("args", []), None, wrapper)
     viol = []
     n = 0
@@ -170,6 +202,7 @@ def _valgrind(st, prop, tier, seed, chk):
                 viol.append({"sig": sig, "detail": "valgrind memcheck: %s (%s)" % (kind, fr or "in a dependency, reached from the hostile corpus"), "replay": {"report": b[:3000]}})
         os.remove(log)
     r["extra_violations"] = viol
+    r["engine_control"] = ("selftest-heap", True)
     if r["result"] is not None:
         r["result"].setdefault("counters", {})["valgrind_error_blocks"] = n
     return r
